@@ -205,6 +205,45 @@ def end_justified(ctx, rule='C08.end-justified'):
     return res
 
 
+def end_checked(ctx, rule='C08.end-checked'):
+    """every entry Range::next hands out has been compared with the end bound: each block that puts a value other than None into the return slot is
+    dominated by the consultation of end_bound() (an early `return self.c.next()` from the start-positioning code skips the end check)"""
+    res = []
+    try:
+        (rn,) = ctx.need('<Range as Iterator>::next')
+    except AnchorError as e:
+        return [unresolved(rule, str(e))]
+    X = ctx.x(rn)
+    ends = [bb for bb in X.reachable_blocks() if X.term(bb)['k'] == 'call' and (callee_of(X.term(bb)) or {}).get('path') == 'std::ops::RangeBounds::end_bound']
+    if not ends:
+        return [bad(rule, '%s | end_bound never consulted' % rn.qual, 'Range::next never calls end_bound()', where='%s:%d' % (rn.file, rn.line))]
+    n = 0
+    for bb in sorted(X.reachable_blocks()):
+        yields = False
+        for st in X.blocks[bb]['stmts']:
+            if st['k'] == 'assign' and st['p']['l'] == 0 and not st['p']['pr']:
+                rv = st['rv']
+                if rv['k'] == 'agg' and rv.get('variant') == 'None':
+                    continue
+                yields = True
+        t = X.term(bb)
+        if t['k'] == 'call' and t['dest']['l'] == 0 and not t['dest']['pr']:
+            yields = True
+        if not yields:
+            continue
+        n += 1
+        if any(X.dominates(e, bb) for e in ends):
+            res.append(ok(rule, 'the value returned at %s has passed the end-bound match' % X.loc(bb), sites=1))
+        else:
+            res.append(bad(rule, '%s | entry returned without the end-bound check' % rn.qual,
+                           'Range::next can return an entry at %s on a path that never consults end_bound(): for an empty or reversed range whose start key exists (k..k, e..a) '
+                           'that entry lies outside the range' % X.loc(bb), where=X.loc(bb)))
+    f = floor(rule, 'blocks of Range::next that return an entry', n, 1)
+    if f:
+        res.append(f)
+    return res
+
+
 def start_compare(ctx, rule='C08.start-compare'):
     """in each payload arm of the start bound the skip decision compares the CURRENT key with the bound"""
     res = []
@@ -529,6 +568,7 @@ def run(ctx, tier):
     results = []
     results += bounds_total(ctx)
     results += end_justified(ctx)
+    results += end_checked(ctx)
     import c07
     results += c07.scan_skips_empty(ctx, rule='C08.scan-skips-empty')
     results += start_compare(ctx)
